@@ -47,7 +47,27 @@ def observe_run(c):
     return out
 
 
+def observe_same_instance(c):
+    """ONE template instance run with vectorize=True and then with vectorize=False (or the other way round): the second run must
+    equal the run of a fresh instance with that setting."""
+    model = c["model"]
+    out = dict(status="ok", traj=None, fresh=None, error=None)
+    try:
+        tpl = mdl.build_templates(model)
+        first, second = c["order"]
+        oracle.run_model(model, c["T"], c["dt"], None, "euler", first, tpl=tpl, clear=True)
+        df, outputs, _ = oracle.run_model(model, c["T"], c["dt"], None, "euler", second, tpl=tpl, clear=True)
+        out["traj"] = {p: np.asarray(df[k], dtype=float).reshape(len(df.index), -1)[:, 0].tolist() for k, p in outputs.items()}
+        df2, outputs2, _ = oracle.run_model(model, c["T"], c["dt"], None, "euler", second, clear=True)
+        out["fresh"] = {p: np.asarray(df2[k], dtype=float).reshape(len(df2.index), -1)[:, 0].tolist() for k, p in outputs2.items()}
+    except Exception as exn:
+        out["error"] = f"run: {type(exn).__name__}: {exn}"
+    return out
+
+
 def dispatch(c):
+    if c["kind"] == "same_instance":
+        return observe_same_instance(c)
     return observe(c) if c["kind"] == "field" else observe_run(c)
 
 
@@ -113,12 +133,38 @@ def main():
         if rec:
             chk.report_failure(dict(site="C04/vectorize", clauses=[rec["clause"]], features=feats,
                                     input=dict(case={k: v for k, v in c.items() if k != "features"}), **rec))
+    # the two settings on ONE template instance, one after the other
+    seq_jobs = []
+    for tag, feats, model in [x for x in gen.c01_structured() if x[0] in ("F1-chain-123", "F8-ring2-6", "F6-fanin-two-inputs", "F9-twin-operators-2")]:
+        for order in ((True, False), (False, True)):
+            seq_jobs.append(dict(tag=f"{tag}/same-instance/{'vec-then-scalar' if order[0] else 'scalar-then-vec'}", features=dict(feats, same_instance=True),
+                                 kind="same_instance", model=model, order=order, T=0.5, dt=0.05))
+    for c, r in zip(seq_jobs, runner.run_cases(dispatch, seq_jobs)):
+        if r.get("status") in ("crash", "timeout"):
+            chk.errors.append(f"harness {r.get('status')} on {c['tag']}: {r.get('error')}")
+            continue
+        n_eval += 1
+        distinct.add(c["tag"])
+        rec = None
+        if r.get("error"):
+            rec = dict(clause="a second run of the same template instance with the other vectorize setting succeeds", observed=r["error"])
+        else:
+            for v in r["fresh"]:
+                x, y = np.asarray(r["traj"].get(v, [])), np.asarray(r["fresh"][v])
+                if x.shape != y.shape or not np.allclose(x, y, rtol=1e-7, atol=1e-10):
+                    rec = dict(clause="after a run with the other vectorize setting, the same instance gives the trajectory of a fresh instance", var=v,
+                               observed=dict(same_instance=float(x[-1]) if x.size else None, fresh=float(y[-1])))
+                    break
+        if rec:
+            chk.report_failure(dict(site="C04/vectorize", clauses=[rec["clause"]], features=dict(c["features"], tag=c["tag"], base=c["tag"].split("/")[0], kind=c["kind"]),
+                                    input=dict(case={k: v for k, v in c.items() if k not in ("features", "model")}), **rec))
     chk.add_bounded("vectorize-on-vs-off", n_eval, len(distinct),
                     "each model compiled/simulated in two fresh processes with vectorize=False and vectorize=True, results "
                     "compared with each other frontend variable by frontend variable (derivatives at 3 random states, rtol 1e-8; "
                     "Euler trajectories, rtol 1e-7): operator chains, parallel edges, multi-input operators, fan-in/fan-out, "
                     "hierarchy, populations of 4-12 nodes with dense/sparse/permuted patterns, tiny and unit weights, two node "
-                    "types with cross fan-in and self-connections, discrete delays and gamma kernels, seeded random circuits; "
+                    "types with cross fan-in and self-connections, discrete delays and gamma kernels, seeded random circuits; four models also "
+                    "with both settings one after the other on ONE template instance (both orders) against a fresh instance; "
                     "distinct = distinct model tags", [{k: v for k, v in c.items() if k != "features"} for c in fam[:2]])
     rc = chk.finish(
         explanation="Bounded: vectorised and non-vectorised compilations are compared with each other (not with the spec), so "
